@@ -1,4 +1,4 @@
 #!/bin/sh
 # Run every check against every behaviour-preserving refactoring in /verif/benign: all must stay silent.
-for d in /verif/benign/*/; do t=$(basename $d); /verif/tools/sweep_seed.sh $d/patch.diff benign-$t > /tmp/benign_sweep_$t.log 2>&1 & done; wait
-for d in /verif/benign/*/; do t=$(basename $d); grep -E "violated|BROKEN" /tmp/benign_sweep_$t.log | cut -c1-${COLS:-240}; tail -1 /tmp/benign_sweep_$t.log; done
+for d in ${VERIF_HOME:-/verif}/benign/*/; do t=$(basename $d); ${VERIF_HOME:-/verif}/tools/sweep_seed.sh $d/patch.diff benign-$t > /tmp/benign_sweep_$t.log 2>&1 & done; wait
+for d in ${VERIF_HOME:-/verif}/benign/*/; do t=$(basename $d); grep -E "violated|BROKEN" /tmp/benign_sweep_$t.log | cut -c1-${COLS:-240}; tail -1 /tmp/benign_sweep_$t.log; done
